@@ -193,10 +193,8 @@ Proof.
   intros s0 ops H0 s m w cs Hin Ha f c e sp Hd Hl Hsp Hm Hsu Hg.
   destruct (trace_inv ops s0 H0 _ _ _ Hin) as [[Ht Hdd Hs] ->]. cbn [step snd].
   apply count_pos_in. rewrite (tick_count s m (CStart f) Ht). cbn [call_file].
-  rewrite Ha, (Hs Ha f c e Hd Hl), Hsu. cbn [file_count]. rewrite String.eqb_refl.
-  assert (Hp : In sp (filter (start_pass s m f) (starts e))).
-  { apply filter_In. split; [assumption|]. unfold start_pass. destruct (due_of_match sp m Hm) as [-> ->]. assumption. }
-  destruct (filter (start_pass s m f) (starts e)); [contradiction | simpl; lia].
+  rewrite Ha, (Hs Ha f c e Hd Hl), Hsu. cbn [file_count]. rewrite String.eqb_refl, Hg.
+  replace (hit m (starts e)) with true by (symmetry; apply existsb_exists; exists sp; split; assumption). simpl. lia.
 Qed.
 
 (* the same for stop and restart schedules *)
@@ -208,10 +206,8 @@ Proof.
   intros s0 ops H0 s m w cs Hin Ha f c e sp Hd Hl Hsp Hm Hsu Hg.
   destruct (trace_inv ops s0 H0 _ _ _ Hin) as [[Ht Hdd Hs] ->]. cbn [step snd].
   apply count_pos_in. rewrite (tick_count s m (CStop f) Ht). cbn [call_file].
-  rewrite Ha, (Hs Ha f c e Hd Hl), Hsu. cbn [file_count]. rewrite String.eqb_refl.
-  assert (Hp : In sp (filter (stop_pass s m f) (stops e))).
-  { apply filter_In. split; [assumption|]. unfold stop_pass. destruct (due_of_match sp m Hm) as [-> _]. assumption. }
-  destruct (filter (stop_pass s m f) (stops e)); [contradiction | simpl; lia].
+  rewrite Ha, (Hs Ha f c e Hd Hl), Hsu. cbn [file_count]. rewrite String.eqb_refl, Hg.
+  replace (hit m (stops e)) with true by (symmetry; apply existsb_exists; exists sp; split; assumption). simpl. lia.
 Qed.
 
 Theorem no_miss_restart : forall s0 ops, Inv s0 ->
@@ -223,9 +219,7 @@ Proof.
   destruct (trace_inv ops s0 H0 _ _ _ Hin) as [[Ht Hdd Hs] ->]. cbn [step snd].
   apply count_pos_in. rewrite (tick_count s m (CRestart f) Ht). cbn [call_file].
   rewrite Ha, (Hs Ha f c e Hd Hl), Hsu. cbn [file_count]. rewrite String.eqb_refl.
-  assert (Hp : In sp (filter (fun sp => due sp m) (restarts e))).
-  { apply filter_In. split; [assumption|]. destruct (due_of_match sp m Hm) as [-> _]. reflexivity. }
-  destruct (filter (fun sp => due sp m) (restarts e)); [contradiction | simpl; lia].
+  replace (hit m (restarts e)) with true by (symmetry; apply existsb_exists; exists sp; split; assumption). simpl. lia.
 Qed.
 
 (* the daemon stays alive as long as no file makes the loader panic *)
@@ -409,15 +403,18 @@ Definition opt_le (a b : option Z) : Prop :=
   | Some _, None => False
   end.
 
-(* premises on the environment, per step, for the DAG file f:
-   - a tick never runs before its minute (wall >= 60 m);
-   - at most one start schedule of f is due at the tick (decidable; excludes F9b and a zero-Next schedule next
-     to a matching one);
-   - the latest start time of f reported by the client never moves backwards. *)
+(* What a history must satisfy for "no minute is started twice" to be meaningful - these are the property's own
+   quantifier (which histories count as runs of the daemon and its environment), not exclusions of inputs:
+   - a tick never runs before its minute (wall >= 60 m): the timer fires at or after the minute it stands for, and
+     a run started by it carries the wall-clock start time;
+   - the latest start time of f reported by the client never moves backwards: "its most recent run" is the
+     newest run; a history store that loses or rewrites the newest run makes the guard formula itself allow the
+     minute again (C09_start_iff), which is what the property states;
+   - (ticks_mono below) the logical minute never goes back: the daemon advances minute by minute and a restarted
+     daemon resumes at the wall-clock minute. *)
 Definition step_ok (f : string) (s : state) (o : op) : Prop :=
   match o with
-  | OTick m w => 60 * m <= w /\
-                 forall e, lookup f (tbl s) = Some e -> (List.length (filter (fun sp => due sp m) (starts e)) <= 1)%nat
+  | OTick m w => 60 * m <= w
   | OHist g st' => g = f -> opt_le (st_last (status_of s f)) (st_last st')
   | _ => True
   end.
@@ -502,7 +499,7 @@ Lemma step_keeps_ran : forall s o f m0, ran_since s f m0 -> step_ok f s o ->
   (match o with OTick m _ => m0 <= m | _ => True end) -> ran_since (fst (step s o)) f m0.
 Proof.
   intros s o f m0 Hr Hok Hm. destruct o as [m w|g st|g on|g c|g|g g'|].
-  - destruct Hok as [Hw _]. apply tick_keeps_ran; assumption.
+  - apply tick_keeps_ran; assumption.
   - destruct Hr as (l & Hl & Hle). unfold ran_since, status_of. cbn [step fst hist].
     destruct (string_dec g f) as [->|Hne].
     + rewrite lookup_upsert_same. specialize (Hok eq_refl). rewrite Hl in Hok. simpl in Hok.
@@ -523,11 +520,7 @@ Proof.
   intros s f m0 Ht (l & Hl & Hle). rewrite (tick_count s m0 (CStart f) Ht). cbn [call_file].
   destruct (alive s); [|reflexivity]. destruct (lookup f (tbl s)) as [e|]; [|reflexivity].
   destruct (mem f (susp s)); [reflexivity|]. cbn [file_count]. rewrite String.eqb_refl.
-  rewrite (filter_nil (start_pass s m0 f)); [reflexivity|].
-  intros sp _. unfold start_pass, due, start_guard. rewrite Hl.
-  destruct (next sp (60 * m0 - 1)) as [n|]; [|reflexivity]. cbn [next_or_zero].
-  destruct (n <=? m0) eqn:E; [|reflexivity]. apply Z.leb_le in E.
-  replace (l <? n) with false by (symmetry; apply Z.ltb_ge; lia).
+  unfold start_guard. rewrite Hl. replace (l <? m0) with false by (symmetry; apply Z.ltb_ge; lia).
   rewrite !andb_false_r. reflexivity.
 Qed.
 
@@ -548,10 +541,10 @@ Qed.
 Lemma ticks_ge_trans : forall ops a b, a <= b -> ticks_ge b ops -> ticks_ge a ops.
 Proof. induction ops as [|o ops IH]; intros a b Hab H; [exact I|]. destruct o; simpl in *; try (eapply IH; eassumption). split; [lia | eapply IH; [eassumption | tauto]]. Qed.
 
-(* C09_no_double: over every history in which the logical minute never goes back, ticks do not run early, the
-   reported latest start never moves backwards and at most one start schedule of f is due per tick, the ticks of
-   any given minute m0 issue at most one Start for f - whatever the lag, however often the daemon is restarted,
-   whatever happens to the directory. *)
+(* C09_no_double: over every history in which the logical minute never goes back, ticks do not run early and the
+   reported latest start never moves backwards, the ticks of any given minute m0 issue at most one Start for f -
+   whatever its schedules, whatever the lag, however often the daemon is restarted, whatever happens to the
+   directory. *)
 Theorem no_double : forall ops s f m0, NoDup (map fst (tbl s)) -> ticks_mono ops -> trace_ok f s ops ->
   (starts_at f m0 s ops <= 1)%nat.
 Proof.
@@ -562,15 +555,9 @@ Proof.
   specialize (IH (fst (step s o)) f m0 Ht' Hmono' Hok2).
   destruct o as [m w| | | | | |]; try lia.
   destruct (m =? m0) eqn:E; [|lia]. apply Z.eqb_eq in E. subst m.
-  destruct Hmono as [Hge _]. destruct Hok1 as [Hw Hone]. cbn [step snd] in *.
+  destruct Hmono as [Hge _]. pose proof Hok1 as Hw. cbn [step_ok] in Hw. cbn [step snd] in *.
   (* at most one call from this tick *)
-  assert (Hc : (count (CStart f) (tick_calls s m0) <= 1)%nat).
-  { rewrite (tick_count s m0 (CStart f) Ht). cbn [call_file]. destruct (alive s); [|lia].
-    destruct (lookup f (tbl s)) as [e|] eqn:El; [|lia]. destruct (mem f (susp s)); [lia|]. cbn [file_count].
-    rewrite String.eqb_refl. specialize (Hone e eq_refl).
-    eapply Nat.le_trans; [|exact Hone]. clear Hone.
-    induction (starts e) as [|sp sps IHs]; simpl; [lia|]. unfold start_pass at 1.
-    destruct (due sp m0); simpl; [|exact IHs]. destruct (start_guard _ _); simpl; lia. }
+  pose proof (call_once s m0 Ht (CStart f)) as Hc.
   destruct (count (CStart f) (tick_calls s m0)) as [|[|n]] eqn:Ec; [lia| |lia].
   (* one call: from now on the latest run of f started at or after m0 *)
   assert (Hin : In (CStart f) (tick_calls s m0)) by (apply count_pos_in; lia).
